@@ -60,6 +60,12 @@ def lin(fx, e, p, syms):
                 return None
             return lin(fx, e[2][0], p, syms)
         return None
+    if k == "bin" and e[1] == "Div":
+        # a limit computed the other way round: (buffer - base) / per_element, all constants
+        a, b = lin(fx, e[2], p, syms), lin(fx, e[3], p, syms)
+        if a is not None and b is not None and not a[1] and not b[1] and b[0] > 0:
+            return (a[0] // b[0], {})
+        return None
     if k == "bin" and e[1] in ("Add", "Sub", "Mul"):
         a, b = lin(fx, e[2], p, syms), lin(fx, e[3], p, syms)
         if e[1] == "Add":
@@ -68,6 +74,52 @@ def lin(fx, e, p, syms):
             return ladd(a, lmul(b, (-1, {})))
         return lmul(a, b)
     return None
+
+
+U64 = 2 ** 64 - 1
+WRAPS = {}   # (crate, config field, backend) -> list of arithmetic sites of the accepted comparison that can wrap
+
+
+def range_max(fx, e, p, symmax, sites):
+    """Largest value the usize expression can take when each named config field ranges over its whole type; every plain
+    (or wrapping) + / * whose exact result can exceed usize::MAX is appended to `sites` - in release builds it wraps
+    silently, and the validation would then accept what it is meant to refuse.  saturating_* cannot wrap."""
+    e = strip_after(e)
+    k = e[0]
+    if k == "c" and e[2] == "int":
+        return e[3]
+    if k == "cast":
+        return range_max(fx, e[3], p, symmax, sites)
+    if k in ("f", "p", "up"):
+        s = fp(e)
+        for name, m in symmax.items():
+            if s.endswith(name):
+                return m
+        return U64
+    if k == "call":
+        n = e[1]
+        l0 = lin(fx, e, p, [])
+        if l0 is not None and not l0[1]:
+            return l0[0]
+        two = len(e[2]) == 2
+        if two and re.search(r"::(saturating|wrapping)_(mul|add)$", n):
+            a, b = range_max(fx, e[2][0], p, symmax, sites), range_max(fx, e[2][1], p, symmax, sites)
+            v = a * b if n.endswith("mul") else a + b
+            if "wrapping" in n and v > U64:
+                sites.append(show(e)[:90])
+            return min(v, U64)
+        if re.search(r"Into>::into$|From.*::from$", n) and len(e[2]) == 1:
+            return range_max(fx, e[2][0], p, symmax, sites)
+        return U64
+    if k == "bin" and e[1] in ("Add", "Mul"):
+        a, b = range_max(fx, e[2], p, symmax, sites), range_max(fx, e[3], p, symmax, sites)
+        v = a + b if e[1] == "Add" else a * b
+        if v > U64:
+            sites.append("%s of up to %d and %d: %s" % (e[1], a, b, show(e)[:70]))
+        return min(v, U64)
+    if k == "bin" and e[1] == "Sub":
+        return range_max(fx, e[2], p, symmax, sites)
+    return U64
 
 
 def ladd(a, b):
@@ -157,6 +209,11 @@ def validation_bound(fx, crate, sym_name, backend=None):
                             continue
                     if best is None or vmax < best:
                         best, where = vmax, "%s: refuse iff %s" % (b.short.split("::", 1)[1], show(x)[:160])
+                        sites = []
+                        tmax = {"u8": 255, "u16": 65535, "u32": 2 ** 32 - 1}.get(field_type(fx, crate, sym_name), U64)
+                        range_max(fx, x[2], p, {sym_name: tmax}, sites)
+                        range_max(fx, x[3], p, {sym_name: tmax}, sites)
+                        WRAPS[(crate, sym_name, backend)] = sorted(set(sites))
     return best, where
 
 
@@ -260,6 +317,11 @@ def udp(fx):
                   vpw or "usize, validation: none", cap, capn)
         yield fit("R-C18-udp", "fit#udp#%s#scrape" % be, "scrape reply", 4 + txid, stat, "max_scrape_torrents", sm,
                   ("u8" if sm == ts else vsw) or "none", cap, capn)
+        for fld, v in (("max_response_peers", vp), ("max_scrape_torrents", vs)):
+            w = WRAPS.get(("aquatic_udp", fld, be))
+            if v is not None and w is not None:
+                yield ob("R-C18-udp", "validate#udp#%s#%s#cannot_wrap" % (be, fld), not w, None, None,
+                         "arithmetic of the start-up test over the whole range of the field's type: %s" % (w or "no + or * can exceed usize::MAX (saturating where needed)"), {"wrapping_sites": w})
         yield ob("R-C18-udp", "default#udp#%s#announce" % be, dp is not None and 4 + fixed + max(peer4, peer6) * dp <= cap, None, None,
                  "default max_response_peers=%s -> %s bytes <= %d" % (dp, 4 + fixed + max(peer4, peer6) * (dp or 0), cap), {"default": dp})
         yield ob("R-C18-udp", "default#udp#%s#scrape" % be, ds is not None and 4 + txid + stat * ds <= cap, None, None,
@@ -345,6 +407,10 @@ def http(fx):
     vp, vpw = validation_bound(fx, "aquatic_http", "max_peers")
     dp = default_of(fx, "aquatic_http", "max_peers")
     yield fit("R-C18-http", "fit#http#announce", "announce body", ann[0], max(ann[1], ann[2]), "max_peers", vp, vpw or "usize, validation: none", cap, "RESPONSE_BUFFER_SIZE-header-trailer")
+    w = WRAPS.get(("aquatic_http", "max_peers", None))
+    if vp is not None and w is not None:
+        yield ob("R-C18-http", "validate#http#max_peers#cannot_wrap", not w, None, None,
+                 "arithmetic of the start-up test over the whole range of the field's type: %s" % (w or "no + or * can exceed usize::MAX (saturating where needed)"), {"wrapping_sites": w})
     yield ob("R-C18-http", "default#http#announce", dp is not None and ann[0] + max(ann[1], ann[2]) * dp <= cap, None, None,
              "default max_peers=%s -> %s bytes <= %d" % (dp, ann[0] + max(ann[1], ann[2]) * (dp or 0), cap), {"default": dp})
     # scrape: number of files <= min(config limit, what fits a request buffer)
